@@ -39,7 +39,10 @@ CLAIMED["C13"] = ("exploration", "3", "seeded sessions of jackknife/bootstrap ex
 CLAIMED["C11"] = ("exploration", "3", "seeded exporter/importer sessions over every json-based transport (strings, plain/gz files, Obs.dump/Corr.dump, dict files, csv and sqlite data-frame columns) and pickle, against real files through seams for the wall clock, user/host identity and write faults (ENOSPC/EIO at the k-th byte), with overwrite/append histories and import in a partner interpreter; every document validated against the shipped schema; deep comparison of every re-imported attribute and of the subsequent analysis",
          "deterministic simulation with fault injection: archive world (storage faults, clock, identity, second interpreter) + reference model of the exported objects",
          "pandas csv writer and sqlite file I/O real and not intercepted; tolerance 64 eps for the delta+offset representation; sampling, not proof")
-PENDING = {k: "claimed in DESIGN.md (deterministic simulation); check under construction, not yet registered" for k in ["C12"]}
+CLAIMED["C12"] = ("exploration", "3", "seeded sessions exporting lists of observables on differing configuration subsets / replicas / ensembles through dobs and pobs strings and xml(.gz) files with every separator_insertion mode, under the archive-world seams (clock, identity, write faults, overwrites) and with import in a partner interpreter under another hash seed; deep comparison incl. documented separator treatment and the subsequent analysis",
+         "deterministic simulation with fault injection: archive world + partner interpreter (hash-seed dependence of list(set(names))) + reference model",
+         "separator rules transcribed from the docstrings; one known format-inherent finding (zero samples) is keyed and reported as KNOWN-FINDING")
+PENDING = {}
 def main():
     checks = []
     for pid, (cat, ref, text, tech, note) in sorted(CLAIMED.items()):
